@@ -114,7 +114,7 @@ BASE = "('netconanRemoved' + str(size(old(lookup))))"
 
 R.contract(M + "_anonymize_value",
            types={"raw_val": STR, "lookup": LOOKUP, "reserved_words": SetT(STR), "salt": Opt(STR)}, returns=STR,
-           modifies=["lookup", "log"], prune=True, max_paths=3000,
+           modifies=["lookup", "log"], prune=True, max_paths=3000, record=True,
            ensures=[
                # reserved words and empty values are returned exactly as written, nothing is recorded
                "implies(%s, result == raw_val and size(lookup) == size(old(lookup)))" % SKIP,
@@ -166,4 +166,56 @@ R.contract(M + "replace_matching_item", record=True,
                       "all(k in pwd_lookup and pwd_lookup[k] == old(pwd_lookup)[k] for k in old(pwd_lookup))"]),
                   1: LoopContract(["compiled_re", "sensitive_item_num"], index="_i1", heap_modifies=["pwd_lookup"], invariant=[
                       "all(k in pwd_lookup and pwd_lookup[k] == old(pwd_lookup)[k] for k in old(pwd_lookup))"]),
-                  "sub1": LoopContract([], invariant=["True"])})
+                  # every match of a line regex on the line is replaced by (its own kept prefix +) the anonymization of
+                  # ITS OWN secret group - from the statement of C07/C08: each secret is replaced, equal secrets by
+                  # equal and different secrets by different replacements
+                  "sub1": LoopContract([], heap_modifies=["pwd_lookup"], invariant=[
+                      "all(k in pwd_lookup and pwd_lookup[k] == old(pwd_lookup)[k] for k in old(pwd_lookup))"],
+                      step_ensures=["OwnSecretAnonymized(REPL)"])})
+
+
+def _same(eng, a, b):
+    try:
+        if isinstance(a, OptV):
+            a = a.val
+        if isinstance(b, OptV):
+            b = b.val
+        if isinstance(a, Ref) and isinstance(b, Ref):
+            return a.rid == b.rid
+        return eng.term(a).eq(eng.term(b))
+    except Exception:
+        return False
+
+
+def _sp_own_secret(eng, args, kw, n):
+    """OwnSecretAnonymized(REPL): in this iteration of the substitution loop _anonymize_value was called exactly
+    once, on a group of the current match, with the run's lookup/salt/reserved words, and the text returned for the
+    match is that call's result, preceded by the match's own `prefix` group when the pattern has one"""
+    import z3 as _z3
+    from pyvc.lib import S as _S
+    calls = [e for k, e in eng.st.calls if k.endswith(":_anonymize_value")]
+    m = getattr(eng, "cur_match", None)
+    if m is None or len(calls) != 1:
+        return Conc(False)
+    e = calls[0]
+    groups = [v for k, v in m.groups.items() if isinstance(v, P)]
+    val = eng.term(e["raw_val"], STR)
+    if not any(val.eq(g.term) for g in groups):
+        return Conc(False)
+    outer = eng.st.vars
+    for pn, vn in (("lookup", "pwd_lookup"), ("salt", "salt"), ("reserved_words", "reserved_words")):
+        if vn in outer and not _same(eng, e[pn], outer[vn]):
+            return Conc(False)
+    res = eng.term(e["result"], STR)
+    has = m.groups.get(("has", "prefix"))
+    pg = m.groups.get("prefix")
+    if has is None or pg is None:
+        prefix = _z3.StringVal("")
+    else:
+        prefix = _z3.If(has, pg.term, _z3.StringVal(""))
+    if any(val.eq(g.term) for g in [pg] if g is not None):
+        return Conc(False)                       # the kept prefix itself must not be what is anonymized
+    return P(BOOL, eng.term(args[0], STR) == _z3.Concat(prefix, res))
+
+
+SPEC_BUILTINS["OwnSecretAnonymized"] = _sp_own_secret
